@@ -81,6 +81,8 @@ def gen_cases(ctx):
             jlo = rng.randint(2, 4) if not flag else lo16 + rng.randint(8, 10)
             p["num_jobs"] = [jlo, jlo + rng.choice([0, 2])]
             p["machines_per_operation"] = rng.choice([1, 1, [1, 3], [2, 4], 4])
+        if i % 5 == 2:
+            p["flag_form"] = ["int", "np"][i % 2]
         yield {"params": p, "draws": 10, "seed": rng.randrange(2**31), "instance": {"cls": "generated"},
                "conflict": conflict}
 
@@ -92,6 +94,13 @@ def rng_pair(x):
 def make(p):
     from job_shop_lib.generation import GeneralInstanceGenerator
     kw = dict(p)
+    form = kw.pop("flag_form", None)
+    if form:
+        # flags that come out of a configuration file or a numpy comparison: 0 / 1, numpy booleans
+        import numpy as np
+        conv = int if form == "int" else np.bool_
+        for k in ("allow_recirculation", "allow_less_jobs_than_machines"):
+            kw[k] = conv(kw[k])
     for k in ("num_jobs", "num_machines", "machines_per_operation", "duration_range"):
         if isinstance(kw[k], list):
             kw[k] = tuple(kw[k])
@@ -286,6 +295,34 @@ def run_case(ctx, case):
         ctx.count("explicit_size_name_checks")
         if len(set(nm)) != len(nm):
             ctx.violation("c19_name_reused", {"params": p, "names": nm, "where": "explicit sizes"})
+    # ... when the generator was check-pointed (pickle / deep copy) in the middle of the work and the
+    # work goes on with the restored object
+    if case["seed"] % 5 == 1:
+        import copy
+        import pickle
+        g8 = make(p)
+        before = [g8.generate().name for _ in range(3)]
+        try:
+            g9 = pickle.loads(pickle.dumps(g8)) if case["seed"] % 2 else copy.deepcopy(g8)
+        except Exception:
+            g9 = None       # not every generator can be pickled; nothing to judge then
+        if g9 is not None:
+            after = [g9.generate().name for _ in range(3)]
+            ctx.count("name_checks_across_a_checkpoint_of_the_generator")
+            if len(set(before + after)) != 6:
+                ctx.violation("c19_name_reused", {"params": p, "names": before + after,
+                                                  "where": "generator restored from a pickle / deep copy"})
+    if case["seed"] % 97 == 5:
+        # a long run with a long name suffix: 1100 names, all different
+        from job_shop_lib.generation import GeneralInstanceGenerator
+        gl = GeneralInstanceGenerator(num_jobs=1, num_machines=1, duration_range=(1, 2),
+                                      name_suffix="experiment_2026_10_03_lr_0p1", seed=case["seed"] % 1000)
+        long_names = [gl.generate().name for _ in range(1100)]
+        ctx.count("long_runs_of_one_generator")
+        if len(set(long_names)) != len(long_names):
+            dup = [n for n in set(long_names) if long_names.count(n) > 1][:3]
+            ctx.violation("c19_name_reused", {"where": "1100 instances from one generator, 28-character suffix",
+                                              "reused": dup})
     # ... and when a request that cannot be honoured (fewer jobs than machines where that is not
     # allowed) was refused between successful ones
     if not p["allow_less_jobs_than_machines"]:
